@@ -678,7 +678,8 @@ def enumerate_as(ctx, tdir, scs, user, th, model_steps, classes, stats):
                     if len(c["points"]) < 40:
                         c["points"].append("%s k=%d%s %s [%s]" % (nme, idx, "+" if (ka or cka) else "", role_of(at), uname))
                     if c["first"] is None:
-                        c["first"] = {"scenario": nme, "crash_index": idx, "kill_after": ka or cka, "process": "victim" if ck is None else "cleaner",
+                        c["first"] = {"args": (nme, k, ka, ck, cka, user),
+                                      "scenario": nme, "crash_index": idx, "kill_after": ka or cka, "process": "victim" if ck is None else "cleaner",
                                       "run_as_user": uname, "call_at_crash_point": at, "api_window": win, "symptom": sym, "detail": detail,
                                       "all_symptoms_of_this_case": [b[0] for b in bad],
                                       "trace_prefix": tr[max(0, idx - 25):idx], "survivor_after": res["phases"].get("after"),
@@ -710,9 +711,32 @@ def run(ctx):
     for u in users:
         stats["seen_roles"], stats["seen_croles"] = set(), set()
         enumerate_as(ctx, tdir, scs, u, th, model_steps, classes, stats)
+    # timing-sensitive symptoms are confirmed by re-running the first case of the class alone with 3x the timeouts
+    global PHASE_TIMEOUT, VICTIM_TIMEOUT
     for key in sorted(classes):
         c = classes[key]
+        sym = c["first"]["symptom"]
+        if not sym.startswith(("survivor-hang", "victim-hang", "cleaner-hang", "survivor-died", "node-never-clean")):
+            continue
+        a = c["first"]["args"]
+        old = (PHASE_TIMEOUT, VICTIM_TIMEOUT)
+        PHASE_TIMEOUT, VICTIM_TIMEOUT = 3 * old[0], 3 * old[1]
+        try:
+            ref = run_case(tdir, a[0], user=a[5])
+            res = run_case(tdir, a[0], a[1], a[2], a[3], a[4], user=a[5])
+        finally:
+            PHASE_TIMEOUT, VICTIM_TIMEOUT = old
+        again = [b[0] for b in judge(res, ref)]
+        c["confirmed"] = sym in again
+        if not c["confirmed"]:
+            ctx.notes.append("class %s (%d cases) was not reproduced when its first case was re-run alone with 3x timeouts (symptoms then: %s): "
+                             "attributed to machine load, not reported" % (key, c["count"], again))
+    for key in sorted(classes):
+        c = classes[key]
+        if c.get("confirmed") is False:
+            continue
         fst = dict(c["first"])
+        fst.pop("args", None)
         fst["crash_points_in_this_class"] = c["points"]
         fst["cases_in_this_class"] = c["count"]
         fst["seen_as_user"] = sorted(c["users"])
@@ -750,7 +774,7 @@ def run(ctx):
 
 
 def model_step_lists(ctx):
-    """step lists printed by the extracted Lifecycle model (ocaml/c04/driver), or None if not built yet"""
+    """builds the extracted Lifecycle model + driver; returns the driver path or None if not built yet"""
     d = os.path.join(VERIF, "ocaml", "c04")
     if not os.path.exists(os.path.join(VERIF, "coq", "extract", "C04.v")):
         return None
@@ -758,16 +782,108 @@ def model_step_lists(ctx):
     if not ok:
         ctx.violation("extracted model / OCaml driver does not build", {"log": out}, no_input=True)
         return None
-    rc, out = vlib.sh([os.path.join(d, "driver")], timeout=60)
-    steps = {}
-    for l in out.split("\n"):
-        if l.startswith("STEPS "):
-            f = l.split(" ", 2)
-            steps[f[1]] = f[2].split(" | ") if len(f) > 2 and f[2] else []
-    return steps
+    return os.path.join(d, "driver")
 
 
-def tie_check(nme, ctrace, model_steps):
+SUFFIX_ROLE = [("/P_node.details", "Det"), (".node_monitor_context", "Tok"), (".node_monitor_owner_lock", "Tok"), (".node_monitor", "Tok"),
+               (".service_tag", "STag"), (".port_tag", "PTag"), (".service", "Stat"), (".dynamic", "Dyn"), (".blackboard_data", "SRes"),
+               (".blackboard_mgmt", "SRes"), (".data", "Data"), (".event_mgmt", "Data"), (".event", "Data"), (".connection", "Conn")]
+
+
+def trace_tokens(lines):
+    """state-changing calls of a trace window -> abstract steps Mk:<kind> / Rm:<kind> (consecutive repeats collapsed)"""
+    out = []
+    for l in lines:
+        f = l.split(" ")
+        call, path = f[0], f[1]
+        if f[-1] != "ok":
+            continue
+        if call in ("mkdir",) or (call in ("open", "openat", "shm_open", "creat") and "O_CREAT" in l):
+            t = "Mk"
+        elif call in ("remove", "unlink", "unlinkat", "shm_unlink", "rmdir"):
+            t = "Rm"
+        else:
+            continue
+        role = None
+        if re.match(r"^R/nodes/#\d+$", path):
+            role = "Det"
+        elif path in ("R/nodes", "R/services", "R"):
+            continue
+        else:
+            for suf, r in SUFFIX_ROLE:
+                if path.endswith(suf):
+                    role = r
+                    break
+        tok = "%s:%s" % (t, role or ("?" + path))
+        if not out or out[-1] != tok:
+            out.append(tok)
+    return out
+
+
+def collapse(toks):
+    out = []
+    for t in toks:
+        if not out or out[-1] != t:
+            out.append(t)
+    return out
+
+
+def tie_check(nme, ctrace, driver):
+    """trace equality per API window between the un-killed reference trace and the step lists of
+    coq/model/Lifecycle.v (file-level projection).  Returns None or (scenario, description, ...)."""
+    # split the trace into windows
+    wins = []
+    cur = None
+    for l in ctrace:
+        if l.startswith("access R/@M/"):
+            cur = [l.split(" ")[1][len("R/@M/"):], []]
+            wins.append(cur)
+        elif cur is not None:
+            cur[1].append(l)
+    names = {}
+    ops = []
+    last = nme.startswith("create_") or nme.startswith("full_create_")
+    for label, lines in wins:
+        f = label.split("_")
+        toks = trace_tokens(lines)
+        if f[0] == "node":
+            names[f[1]] = ("node",)
+            ops.append(("node", toks, label))
+        elif f[0] == "svc":
+            names[f[1]] = ("svc", f[3])
+            ops.append((("svc-create %d" % (f[3] == "bb")) if f[4] == "create" else "svc-open", toks, label))
+        elif f[0] == "port":
+            nconn = len({l.split(" ")[1] for l in lines if ".connection" in l and "O_CREAT" in l and l.endswith(" ok")})
+            names[f[1]] = ("port", f[3], nconn)
+            ops.append(("port-create %s %d" % (f[3], nconn), toks, label))
+        elif f[0] == "drop" and len(f) == 2 and f[1] in names:
+            k = names[f[1]]
+            if k[0] == "node":
+                ops.append(("drop-node", toks, label))
+            elif k[0] == "svc":
+                ops.append(("svc-drop %d %d" % (k[1] == "bb", last), toks, label))
+            elif k[0] == "port":
+                nconn = len({l.split(" ")[1] for l in lines if ".connection" in l and l.startswith("shm_unlink") and l.endswith(" ok")})
+                ops.append(("port-drop %s %d" % (k[1], nconn), toks, label))
+            else:
+                ops.append((None, toks, label))
+        else:
+            ops.append((None, toks, label))     # send/receive/... : no resource step expected
+    inp = "C %s\n" % nme + "".join("O %s\n" % o for o, _, _ in ops if o)
+    rc, out = vlib.sh([driver], inp=inp, timeout=60)
+    model = [l.split(" ")[3:] for l in out.split("\n") if l.startswith("STEPS ")]
+    if rc != 0 or len(model) != len([o for o in ops if o[0]]):
+        return (nme, "driver failed", out[-300:])
+    i = 0
+    for o, toks, label in ops:
+        if o is None:
+            if toks and not nme.startswith(("steady_", "full_")):
+                return (nme, "window %s: unexpected resource steps %s" % (label, toks))
+            continue
+        want = collapse(model[i])
+        i += 1
+        if toks != want:
+            return (nme, "window %s (%s): implementation %s, model %s" % (label, o, toks, want))
     return None
 
 
